@@ -15,8 +15,9 @@
    E3  (server structure) Initialize follows a successful campaign, once per campaign;
    E4  (bounded pauses) when a member wins a later campaign none of its requests or maintenance calls from
        an earlier term is still between two of its atomic sections (LElect requires `busy = false`).
-   step_r = step without window saves of UpdateTimestamp / resetUserTimestamp that are applied but
-   reported as failed (see props/C02.v, C02_window_monotone_refuted). *)
+   step_r = step: every storage outcome of every window save is inside the quantifier - acknowledged, failed
+   before it was applied, or applied although the client saw an error (then the allocator reads its window back
+   before it decides about the next save: LUpdDecide / LURDecide; LUpdAbort / LURAbort = that read failed). *)
 From Coq Require Import ZArith List.
 From PDV Require Import lib.Base gen.Gen_C01 model.C01_Tso proof.C01_Ctl proof.C01_Win proof.C01_Rec proof.C01_Main proof.C01_Skel model.C03_Env proof.C01_EnvTie.
 Import ListNotations.
